@@ -2656,8 +2656,12 @@ Vinquire(int32  vkey,     /* IN: vgroup key */
         HGOTO_ERROR(DFE_ARGS, FAIL);
 
     /* copy vgroup name if requested.  Assumes 'vgname' has sufficient space */
-    if (vgname != NULL)
-        strcpy(vgname, vg->vgname);
+    if (vgname != NULL) {
+        if (vg->vgname != NULL)
+            strcpy(vgname, vg->vgname);
+        else /* a vgroup that has not been given a name yet */
+            vgname[0] = '\0';
+    }
 
     /* set number of entries in vgroup if requested */
     if (nentries != NULL)
